@@ -14,6 +14,8 @@
 (*                 max<int32_t>(maxThreads,1)), wait, minItemsPerChunk, granularity*)
 (*   N             taskSet.numPoolThreads()                                        *)
 (*   l3, gspan     number of L3 groups of the machine; threads per index group (16)*)
+(*   clamp         which of the two allowed thread-count rules adjustChunkSizing    *)
+(*                 uses for tiny explicit-chunk ranges (see Chunking.tla)          *)
 (*   rec           the call is made inside a parallel_for body on the same pool    *)
 (*                 (PerPoolPerThreadInfo::isParForRecursive)                       *)
 (*                                                                                 *)
@@ -56,7 +58,7 @@ ParForOutcome(in) ==
   IF te <= in.start \/ in.N = 0 \/ in.rec THEN Outcome("serial", FALSE, whole, FALSE, FALSE, 1, g)
   ELSE
   LET adj == AdjustChunkSizing(psize, maxThreads0, isStaticRange, isAuto, isStaticRange,
-                               minItems, in.N, in.wait)
+                               minItems, in.N, in.wait, in.clamp)
       maxThreads == adj.maxThreads
   IN
   IF maxThreads < 2 THEN Outcome("serial", FALSE, whole, FALSE, FALSE, 1, g)
